@@ -21567,6 +21567,17 @@ impl<
 		L: Logger,
 	> ChannelManager<M, T, ES, NS, SP, F, R, MR, L>
 {
+	/// Verification hook (C01): `FundedChannel::verif_send_check_inputs` of a funded channel of this
+	/// manager, evaluated with the manager's own fee estimator. Read-only.
+	pub(crate) fn verif_send_check_inputs(
+		&self, counterparty_node_id: &PublicKey, channel_id: &ChannelId,
+	) -> Option<(u64, Vec<(bool, u64)>, usize, [u64; 7], Option<u32>, u64, u32)> {
+		let per_peer_state = self.per_peer_state.read().unwrap();
+		let peer_state = per_peer_state.get(counterparty_node_id)?.lock().unwrap();
+		let chan = peer_state.channel_by_id.get(channel_id)?.as_funded()?;
+		Some(chan.verif_send_check_inputs(&self.fee_estimator))
+	}
+
 	/// Verification hook (C01): runs `FundedChannel::verif_closing_probe` on a funded channel of this
 	/// manager with the manager's own (lower-bounded) fee estimator. Leaves the channel unchanged.
 	#[cfg(feature = "std")]
